@@ -8,6 +8,7 @@ from vlib.core import Case
 
 ID = "C03"
 LEAN_TARGETS = ["ZmqVerif.Props.C03"]
+ESCALATE_ROUNDS = 1  # extra seeded rounds of the random families when /repo differs from the validated baseline
 RULE = (
     "corpus of past witnesses first; EXHAUSTIVE byte strings over the alphabet {00,01,02,04,05,06,07,08,ff,'R'} "
     "up to length 4 (quick) / 5 (thorough) after a valid greeting; structure-aware mutations of valid streams "
